@@ -170,6 +170,27 @@ def routed_exec_variants(cfg):
     return set(exec_table(cfg))
 
 
+def submsg_fields(ctx, cfg, R):
+    """lifting a sub-message of an Empty-typed contract keeps its id, payload, gas limit and reply mode (shared with C03:
+    `reply` is decided by the reply_on the contract chose)"""
+    F, P = cfg.facts, cfg.prov
+    key = "contracts::customize_msg"
+    f = F.fn(key)
+    if f is None:
+        ctx.fail(R, key, "anchor-missing", "customize_msg not found")
+        return
+    aggs = [(b, i, st) for b, i, st in f.stmts() if st["k"] == "assign" and st["rv"].get("k") == "aggregate" and st["rv"].get("adt") == "cosmwasm_std::SubMsg"]
+    ok = len(aggs) == 1
+    if ok:
+        b, i, st = aggs[0]
+        d = dict(P.rvalue(f, st["rv"], (b, i))[2])
+        for fld in ("id", "payload", "gas_limit", "reply_on"):
+            ctx.ob(R, key, "SubMsg.%s-carried" % fld, is_param_field(d[fld], "msg", fld), "SubMsg.%s is %s" % (fld, fmt(d[fld])[:60]), fn=f, line=st["line"],
+                   sample="msg.%s" % fld)
+    else:
+        ctx.fail(R, key, "SubMsg-aggregate", "expected one SubMsg aggregate, found %d" % len(aggs), fn=f)
+
+
 def r4(ctx, cfg):
     F, P = cfg.facts, cfg.prov
     R = "C17.R4"
@@ -198,17 +219,7 @@ def r4(ctx, cfg):
                    "CosmosMsg::%s is routed by Router::execute in config %s but customize_msg has no pass-through arm for it "
                    "(a contract built with new_with_empty that emits it panics with \"unknown message variant\")" % (v, cfg.name), fn=f,
                    sample="CosmosMsg::%s(x) => CosmosMsg::%s(x)" % (v, v))
-        # SubMsg fields carried over
-        aggs = [(b, i, st) for b, i, st in f.stmts() if st["k"] == "assign" and st["rv"].get("k") == "aggregate" and st["rv"].get("adt") == "cosmwasm_std::SubMsg"]
-        ok = len(aggs) == 1
-        if ok:
-            b, i, st = aggs[0]
-            d = dict(P.rvalue(f, st["rv"], (b, i))[2])
-            for fld in ("id", "payload", "gas_limit", "reply_on"):
-                ctx.ob(R, key, "SubMsg.%s-carried" % fld, is_param_field(d[fld], "msg", fld), "SubMsg.%s is %s" % (fld, fmt(d[fld])[:60]), fn=f, line=st["line"],
-                       sample="msg.%s" % fld)
-        else:
-            ctx.fail(R, key, "SubMsg-aggregate", "expected one SubMsg aggregate, found %d" % len(aggs), fn=f)
+        submsg_fields(ctx, cfg, R)
     key = "contracts::customize_response"
     f = ctx.need_fn(R, key)
     if f is not None:
